@@ -4,7 +4,8 @@ func branch(pc ProgramCounter, b ProgramCounter, C bool, bitmask Bitmask, instru
 	switch {
 	case !C:
 		return ExitContinue, pc
-	case !bitmask.IsStartOfBasicBlock(b) && instruction.isOpcodeValid(b):
+	case !bitmask.IsStartOfBasicBlock(b):
+		// (A.17) a branch target outside the set of basic-block starts panics; b may lie beyond the code
 		return ExitPanic, pc
 	default:
 		return ExitContinue, b
